@@ -70,6 +70,15 @@ package snowflake_server
 //
 // acceptStreams: every connection handed to the accept queue carries the address looked up for this
 // session's ClientID, and that address is never nil (callers call .String() on RemoteAddr()).
+// Every accepted KCP session is served by a goroutine of its own, and that goroutine keeps ITS session: the variable
+// it shares with the accept loop is never assigned again (obligation go.capture), and the session handed to
+// acceptStreams is the one just accepted.
+//@ func (l *SnowflakeListener) acceptSessions(ln *kcp.Listener) (err error)
+//@   props C05, C18
+//@   flag nosafety
+//@   requires l != nil && ln != nil
+//@   loop 1 invariant true
+//
 //@ func (l *SnowflakeListener) acceptStreams(conn *kcp.UDPSession) (err error)
 //@   props C18
 //@   requires l != nil && conn != nil
